@@ -113,14 +113,14 @@ let sem_case line =
 
 (* names of the table entries (trusted glue): uv wrapper <-> constructor, pthread call -> name *)
 let uv_names = [
-  "uv_mutex_init", UvMutexInit; "uv_mutex_destroy", UvMutexDestroy; "uv_mutex_lock", UvMutexLock;
+  "uv_mutex_init", UvMutexInit; "uv_mutex_init_recursive", UvMutexInitRecursive; "uv_mutex_destroy", UvMutexDestroy; "uv_mutex_lock", UvMutexLock;
   "uv_mutex_trylock", UvMutexTrylock; "uv_mutex_unlock", UvMutexUnlock;
   "uv_rwlock_init", UvRwlockInit; "uv_rwlock_destroy", UvRwlockDestroy; "uv_rwlock_rdlock", UvRwlockRdlock;
   "uv_rwlock_tryrdlock", UvRwlockTryrdlock; "uv_rwlock_rdunlock", UvRwlockRdunlock;
   "uv_rwlock_wrlock", UvRwlockWrlock; "uv_rwlock_trywrlock", UvRwlockTrywrlock; "uv_rwlock_wrunlock", UvRwlockWrunlock;
   "uv_sem_init", UvSemInit; "uv_sem_destroy", UvSemDestroy; "uv_sem_post", UvSemPost; "uv_sem_wait", UvSemWait;
   "uv_sem_trywait", UvSemTrywait;
-  "uv_cond_destroy", UvCondDestroy; "uv_cond_signal", UvCondSignal; "uv_cond_broadcast", UvCondBroadcast;
+  "uv_cond_init", UvCondInit; "uv_cond_destroy", UvCondDestroy; "uv_cond_signal", UvCondSignal; "uv_cond_broadcast", UvCondBroadcast;
   "uv_cond_wait", UvCondWait; "uv_cond_timedwait", UvCondTimedwait;
   "uv_once", UvOnce; "uv_key_create", UvKeyCreate; "uv_key_delete", UvKeyDelete; "uv_key_get", UvKeyGet;
   "uv_key_set", UvKeySet; "uv_thread_join", UvThreadJoin;
@@ -133,25 +133,36 @@ let p_name = function
   | PRwTrywrlock -> "pthread_rwlock_trywrlock" | PRwUnlock -> "pthread_rwlock_unlock"
   | PSemInit -> "sem_init" | PSemDestroy -> "sem_destroy" | PSemPost -> "sem_post" | PSemWait -> "sem_wait"
   | PSemTrywait -> "sem_trywait"
-  | PCondDestroy -> "pthread_cond_destroy" | PCondSignal -> "pthread_cond_signal"
+  | PCondInit -> "pthread_cond_init" | PCondDestroy -> "pthread_cond_destroy" | PCondSignal -> "pthread_cond_signal"
   | PCondBroadcast -> "pthread_cond_broadcast" | PCondWait -> "pthread_cond_wait"
   | PCondTimedwait -> "pthread_cond_timedwait"
   | POnce -> "pthread_once" | PKeyCreate -> "pthread_key_create" | PKeyDelete -> "pthread_key_delete"
   | PGetspecific -> "pthread_getspecific" | PSetspecific -> "pthread_setspecific" | PJoin -> "pthread_join"
   | PBarrierInit -> "pthread_barrier_init" | PBarrierWait -> "pthread_barrier_wait"
   | PBarrierDestroy -> "pthread_barrier_destroy"
-let pass_case line =
-  let name = String.trim line in
+(* what an init call asks for; process-shared is never requested (constant in the format) *)
+let req_string = function
+  | IMutex t -> ":type=" ^ zs t ^ ",pshared=0"
+  | IRwlock k -> ":kind=" ^ zs k ^ ",pshared=0"
+  | ICond c -> ":clock=" ^ zs c ^ ",pshared=0"
+  | ISem (p, v) -> ":pshared=" ^ zs p ^ ",value=" ^ zs v
+  | IBarrier n -> ":count=" ^ zs n ^ ",pshared=0"
+  | INotInit -> ""
+let pass_case debug line =
+  let name, arg = match split_on ' ' line with
+    | [n] -> n, "1" | [n; a] -> n, a | _ -> "", "1" in
   if name = "?" then   (* list the wrappers of the table, in table order *)
     String.concat " " (List.map (fun f -> fst (List.find (fun (_, g) -> g = f) uv_names)) all_uvfn)
   else match List.assoc_opt name uv_names with
     | Some f -> String.concat " " (List.map (fun p -> p_name p ^ ":0") (passthrough_pre f)
-                                   @ [p_name (passthrough f) ^ ":1"])
+                                   @ [p_name (passthrough f) ^ ":1" ^ req_string (init_request debug f (z_of_string arg))])
     | None -> "unknown"
 
 let () =
   let f = match Sys.argv.(1) with
-    | "pass" -> pass_case
+    (* pass: NDEBUG build, or PTHREAD_MUTEX_ERRORCHECK not a macro (glibc); passdbg: assert-enabled
+       build on a libc where it is a macro *)
+    | "pass" -> pass_case false | "passdbg" -> pass_case true
     | "codes" -> codes_case | "stack" -> stack_case
     | "timed" -> timed_case add_wrap | "timedfix" -> timed_case add_sat
     | "bar" -> bar_case | "sem" -> sem_case
